@@ -296,6 +296,30 @@ def lookup_summary(ctx, fn_name, _memo=None, _stack=()):
     for m in re.findall(r'is_ident\s*\(\s*("([^"\\]*)"|[A-Za-z_][A-Za-z0-9_]*)\s*\)', ' '.join(a.get('guard_text') or '' for mm in f['matches'] for a in mm['arms']) + ' ' + ' '.join(str(a.get('pat', '')) for mm in f['matches'] for a in mm['arms'])):
         names.add(('lit', m[1]) if m[0].startswith('"') else (('param', params.index(m[0])) if m[0] in params else ('const', m[0])))
     out = set()
+    # fragments of a look-up that live in a private helper without a namespace of its own (`name_value_string(&meta, name)`: the
+    # `Meta::NameValue` test and the `is_ident(name)` test, the namespace staying with the caller's get_meta_items): its argument
+    # names and meta kinds are this function's, with the helper's parameters bound at the call site
+    for c in f['calls']:
+        g = c.get('f')
+        if g in local and g not in ('get_meta_items', fn_name) and c.get('recv') is None and g not in _stack:
+            gf = [gg for gg in ctx.fns(file='parser.rs') if gg['name'] == g][0]
+            gtxt = json.dumps(gf)
+            g_ns = [cc for cc in gf['calls'] if cc.get('f') == 'get_meta_items']
+            if g_ns or lookup_summary(ctx, g, memo, _stack + (fn_name,)):
+                continue
+            gparams = [p_['name'] for p_ in gf['params']]
+            g_kinds = set(re.findall(r'Meta\s*::\s*(Path|NameValue|List)', gtxt))
+            g_names = {_val(cc['args'][0], gparams) for cc in gf['calls'] if cc.get('f') == 'is_ident' and cc.get('args') and not on_attribute_path(cc)}
+            for x in vt.walk(gf.get('tail')):
+                if x.get('k') == 'call' and x.get('f') == 'is_ident' and x.get('args') and not on_attribute_path(x):
+                    g_names.add(_val(x['args'][0], gparams))
+            if g_kinds and g_names:
+                kinds |= g_kinds
+                for nm_ in g_names:
+                    if nm_[0] == 'param' and nm_[1] < len(c.get('args', [])):
+                        names.add(_val(c['args'][nm_[1]], params))
+                    elif nm_[0] in ('lit', 'const'):
+                        names.add(nm_)
     if ns and names and kinds:
         out |= {(a, b, kd) for a in ns for b in names for kd in kinds}
     for c in f['calls']:
